@@ -116,10 +116,17 @@ def evaluate(spec, props, cap=20000, wall=30):
     tr, Q, status, crash = run_spec(spec, cap=cap, wall=wall)
     n_events_total = sum(1 for e in tr.events if e[0] == 'EVENT')
     cut = taint.scan(spec, tr)
+    if cut is None and status in ('crash', 'timeout'):
+        # the last engine event did not complete (no snapshot after it): what it wrote is not judged
+        last = [i for i, e in enumerate(tr.events) if e[0] == 'EVENT']
+        if last and len(last) == len(tr.snaps):
+            cut = dict(finding=None, group=len(last) - 1, event_index=last[-1], t=tr.events[last[-1]][1], detail=('incomplete_event',))
     if cut:
         apply_cut(tr, cut)
     cx = collect_context(spec, tr, Q, status, cut)
     cx['crash'] = crash
+    cx['tainted'] = bool(cut and cut['finding'])
+    cx['soft'] = taint.soft(spec, tr)
     old = signal.signal(signal.SIGALRM, _alarm)
     oracle_errors = []
     if cx.get('collect_error') and status == 'ok' and not cut:
@@ -151,7 +158,7 @@ def evaluate(spec, props, cap=20000, wall=30):
         if (p, code) in seen: continue
         seen.add((p, code))
         viol.append((p, code, _short(det)))
-    return dict(seed=spec['seed'], status=status, crash=crash, taint=(cut['finding'] if cut else None),
+    return dict(seed=spec['seed'], status=status, crash=crash, taint=(cut['finding'] if cut else None), soft=sorted(cx['soft']),
                 taint_detail=(cut.get('detail') if cut else None),
                 events_total=n_events_total, events_judged=kinds.get('EVENT', 0), kinds=kinds, evtypes=evtypes,
                 counters=tr.counters, ties=tr.ties, ind_ties=tr.ind_ties, tie_choices=len(tr.tie_choices),
